@@ -90,43 +90,53 @@ def _run(db, ctx):
         if X.canon(b['$pos']) != X.canon(a['idx']) or not (b['$score'][0] == 'call' and b['$score'][1].endswith('score_position')):
             ctx.fail('R3.4', f, 'update of best', 'new best is not (rescored index, its exact score)')
             continue
-        rels = G.relations(f, R, bi)
-        has_best = any(r[0] == 'switch' and r[2] == ('eq', 1) and norm(r[1]) == ('discr', ('v', best)) for r in rels)
-        no_best = any(r[0] == 'switch' and norm(r[1]) == ('discr', ('v', best)) and r[2] in (('notin', [1]), ('eq', 0)) for r in rels)
-        sc = X.canon(b['$score'])
-        if has_best:
-            # on every path into the replacement the exact score was compared with the current best's score: score > best.score
-            # (>=, or == with a position tie-break, on a path of a short-circuit disjunction)
-            def exact_cmp(rs, allow_eq):
-                for r in rs:
-                    if r[0] in ('true', 'gt', 'ge', 'lt', 'le', 'eq'):
-                        if r[0] == 'true':
-                            e_ = r[1]
-                        else:
-                            e_ = ('bin', {'gt': 'FGt', 'ge': 'FGe', 'lt': 'FLt', 'le': 'FLe', 'eq': 'Eq'}[r[0]], r[1], r[2])
-                        for x in X.walk(e_):
-                            if x[0] == 'bin' and x[1] in ('Gt', 'Ge', 'FGt', 'FGe') and 'score_position' in X.canon(x[2]) and X.canon(x[3]).endswith('.score'):
-                                return True
-                            if x[0] == 'bin' and x[1] in ('Lt', 'Le', 'FLt', 'FLe') and 'score_position' in X.canon(x[3]) and X.canon(x[2]).endswith('.score'):
-                                return True
-                            if allow_eq and x[0] == 'bin' and x[1] == 'Eq' and {('score_position' in X.canon(x[2])), X.canon(x[3]).endswith('.score')} == {True} :
-                                return True
-                return False
-            alts = G.expand_alternatives(G.alternatives(f, X.Rec(f, db, ite=True), bi))
-            okc = all(exact_cmp(a_, len(alts) > 1) for a_ in alts) and any(exact_cmp(a_, False) for a_ in alts)
+        # on every path into the update: either a best exists and the exact score was compared with its score (score > best.score; >=, or
+        # == with a position tie-break, on one side of a disjunction), or none exists yet and the exact score reaches the threshold
+        def exact_cmp(rs, allow_eq):
+            for r in rs:
+                if r[0] in ('true', 'gt', 'ge', 'lt', 'le', 'eq'):
+                    if r[0] == 'true':
+                        e_ = r[1]
+                    else:
+                        e_ = ('bin', {'gt': 'FGt', 'ge': 'FGe', 'lt': 'FLt', 'le': 'FLe', 'eq': 'Eq'}[r[0]], r[1], r[2])
+                    for x in X.walk(e_):
+                        if x[0] == 'bin' and x[1] in ('Gt', 'Ge', 'FGt', 'FGe') and 'score_position' in X.canon(x[2]) and X.canon(x[3]).endswith('.score'):
+                            return True
+                        if x[0] == 'bin' and x[1] in ('Lt', 'Le', 'FLt', 'FLe') and 'score_position' in X.canon(x[3]) and X.canon(x[2]).endswith('.score'):
+                            return True
+                        if allow_eq and x[0] == 'bin' and x[1] == 'Eq' and {('score_position' in X.canon(x[2])), X.canon(x[3]).endswith('.score')} == {True}:
+                            return True
+            return False
+        dbest = ('discr', ('v', best))
+
+        def best_state(a_):
+            st_ = set()
+            for r in a_:
+                if r[0] == 'switch' and norm(r[1]) == dbest:
+                    st_.add('some' if r[2] == ('eq', 1) else ('none' if r[2] in (('notin', [1]), ('eq', 0)) else '?'))
+                elif r[0] in ('eq', 'ne') and len(r) > 3 and norm(r[1]) == dbest and norm(r[2])[0] == 'k':
+                    is1 = norm(r[2])[1] == 1
+                    st_.add('some' if (r[0] == 'eq') == is1 else 'none')
+            return st_
+        alts = G.expand_alternatives(G.alternatives(f, X.AliasRec(f, db, ite=True), bi))
+        with_best = [a_ for a_ in alts if best_state(a_) == {'some'}]
+        without = [a_ for a_ in alts if best_state(a_) == {'none'}]
+        if len(with_best) + len(without) != len(alts) or not alts:
+            ctx.fail('R3.4', f, 'update of best', 'reason=unrecognised-shape: update not under a test of whether a best exists')
+            continue
+        if with_best:
+            okc = all(exact_cmp(a_, len(with_best) > 1) for a_ in with_best) and any(exact_cmp(a_, False) for a_ in with_best)
             if okc:
                 ctx.ok('R3.4', f, 'best replaced only when the exact score beats the current best', ['REAL > REAL (ties by position)'])
             else:
                 ctx.fail('R3.4', f, 'replacement of best', 'replacement is not guarded by an exact comparison score > best.score')
-        elif no_best:
-            g = G.holds(rels, 'ge', lambda e: 'score_position' in X.canon(e), lambda e: S.self_field(e, 'threshold'))
+        if without:
+            g = all(G.holds(a_, 'ge', lambda e: 'score_position' in X.canon(e), lambda e: S.self_field(e, 'threshold')) for a_ in without)
             if g:
                 ctx.ok('R3.4', f, 'first candidate accepted only if score >= self.threshold', ['agrees with Scanner::next (R2.4)'])
             else:
                 ctx.fail('R3.4', f, 'first candidate accepted without the exact threshold test',
                          'when no best exists yet the candidate is accepted on its 8-bit score alone; an over-estimated candidate below the real threshold is returned although next() yields nothing')
-        else:
-            ctx.fail('R3.4', f, 'update of best', 'reason=unrecognised-shape: update not under a test of whether a best exists')
     ctx.floor('R3.4', n_upd, 1, 'updates of best from rescored candidates')
     prefilter_conservative(db, ctx)
 
